@@ -118,3 +118,21 @@ Theorem C03_example_service :
      "/google.cloud.location.Locations/GetLocation"].
 Proof. exact ex_svc_ok. Qed.
 Print Assumptions C03_example_service.
+
+Theorem C03_example_iam_supplied :
+  s_add_iam ex_iam_svc = true /\ iam_supplied ex_iam_svc /\
+  dispatch Async ex_iam_svc (mkCM "set_iam_policy" Table "set_iam_policy") =
+    Some (mkStub "set_iam_policy" UU "/google.iam.v1.IAMPolicy/SetIamPolicy" "SerializeToString" "FromString").
+Proof. exact ex_iam_supplied. Qed.
+Print Assumptions C03_example_iam_supplied.
+
+(* the hypotheses of C03_coerce_equiv hold of a cross-package mapping (asyncio constructor included) *)
+Theorem C03_example_coercion :
+  let m := cm ["name, tags"; "sub"] in
+  fields_mapping ex_csch ex_common true ["name, tags"; "sub"] = Some m /\
+  map fst m = ["name"; "tags"] /\ NoDup (map fst m) /\ fm_wf m /\ ctor_ok m (ctor_fields ex_common) /\
+  block_ok (emit Sync m true false (ctor_fields ex_common)) = true /\
+  exec (emit Sync m true false (ctor_fields ex_common)) RNone [("tags", LL ["=sa"])] = OSend (mkReq [("tags", LL ["=sa"])] []) /\
+  exec (emit Async m true false (ctor_fields ex_common)) RNone [("tags", LL ["=sa"])] = OSend (mkReq [("tags", LL ["=sa"])] []).
+Proof. exact ex_cross_hypotheses. Qed.
+Print Assumptions C03_example_coercion.
